@@ -905,7 +905,8 @@ class AstToCfg(ast.NodeVisitor):
 
     if node.type is not None:
       self.visit(node.type)
-    if node.name is not None:
+    # In Python 3 the name of the exception variable is a plain string.
+    if isinstance(node.name, ast.AST):
       self.visit(node.name)
 
     for stmt in node.body:
